@@ -75,9 +75,9 @@ theorem gffGroupGo_features (idKey : τ) (fs : List (GFeat τ)) (hok : ∀ f ∈
       | nil => simp at hf'
       | cons g rest =>
         simp only [List.head?_cons, Option.some.injEq] at hf'
-        subst hf'
+        rw [← hf']
         rcases hids.1 with h | h
-        · by_cases hn : gffIdOf idKey f'.qual = none
+        · by_cases hn : gffIdOf idKey g.qual = none
           · exact Or.inr hn
           · left; rw [h]; exact hn
         · exact Or.inl (fun e => h e.symm)
